@@ -212,7 +212,17 @@ def run(rep):
             if aggs:
                 a = aggs[0]['rv']
                 fields = dict(zip(a['fields'], a['ops']))
-                want = {IDX_F: '.binding', SPACE_F: '.space'}
+                want = {IDX_F: '.binding'}
+                if isinstance(SPACE_F, str):
+                    want[SPACE_F] = '.space'
+                else:
+                    # the record keeps a reference to the variable itself: that reference must be the variable whose ResourceBinding gives the index
+                    gf = SPACE_F[0]
+                    rg = canon(B, op_place(fields[gf])) if gf in fields and op_place(fields[gf]) else None
+                    ri = canon(B, op_place(fields[IDX_F])) if IDX_F in fields and op_place(fields[IDX_F]) else None
+                    same = rg is not None and ri is not None and rg[0] == ri[0] and ri[1].replace('&', '').replace('*', '').startswith(rg[1].replace('&', '').replace('*', ''))
+                    rep.check(same, 'C11.R2.element-fields', f'{key}:address_space', B.where(bb),
+                              f'field {gf} of the collected binding ({rg}) is not the variable whose binding gives the index ({ri})', ok_detail=f'{gf} <- the variable itself ({rg})')
                 for f, suffix in want.items():
                     r = canon(B, op_place(fields[f])) if f in fields and op_place(fields[f]) else None
                     rep.check(r is not None and r[1].endswith(suffix), 'C11.R2.element-fields', f'{key}:{"binding_index" if f == IDX_F else "address_space"}', B.where(bb),
